@@ -28,6 +28,9 @@ def handle (l : Line) : IO Unit := do
   let id := l.id
   match l.getD "kind" with
   | "defaults" => IO.println (defaultsLine id)
+  | "tidy" =>
+    if (l.get? "crashed").isSome then return
+    IO.println s!"spec {id} tidy same=1 race=0"
   | "run" =>
     if (l.get? "crashed").isSome then return   -- the real code died on this case: the harness printed `crash`
     match l.get? "err" with
